@@ -39,6 +39,9 @@ func c02(c *Ctx) {
 		bad, sites := c.instanceStateFresh(loadPkg, "adaptiveShedder")
 		c.R.Check(len(bad) == 0 && sites >= 4, "C02.R11", loadPkg+".adaptiveShedder#own-state", "the overload timestamp, the dropped-recently flag and the two windows of a shedder are made for that shedder (no package-level variable behind them): another shedder's overloads do not keep this one's cool-off alive", "-", fmt.Sprintf("%d state fields initialised; %s", sites, strings.Join(bad, "; ")), bad, sites)
 	}
+	// R12 (round 8): ShedderGroup hands out one shedder per key through syncx.ResourceManager — its create-once rules (C07)
+	// are part of this check (two shedders for one key split the in-flight count)
+	runShared(c, "C07.", "C02.R12·C07.", c07)
 }
 
 func loadCall(name string) px.Pred {
